@@ -720,7 +720,8 @@ func campaignMain[C any](t *testing.T, chk Check[C]) {
 		}
 		if v != nil {
 			lastViolation.v, lastViolation.c, lastViolation.seen = v, c, true
-			rt.Fatalf("VIOLATION key=%s: %s\n%s", v.Key, v.Msg, v.Observed)
+			// rapid accepts a shrink step only when the failure message repeats: keep it to the key
+			rt.Fatalf("VIOLATION key=%s", v.Key)
 		}
 	})
 }
